@@ -4,7 +4,7 @@
    implementation's own observations (coefficients, energies at samples, tokens of the text).
    Variables, vartypes, bounds and constraint labels are compared exactly by the worker. *)
 From Coq Require Import List ZArith NArith QArith Qcanon Bool Arith.
-From Dimod Require Import Base.Util Model.Poly Model.LP Model.LPTok.
+From Dimod Require Import Base.Util Model.Poly Model.LP Model.LPTok Model.LPRead.
 Import ListNotations.
 Open Scope Qc_scope.
 
@@ -19,6 +19,10 @@ Inductive case :=
 | KRefuse (m : cqm_shape) (raised : bool)
 (* the words of the text lp.dumps produced, classified into tokens, and what the C++ reader
    made of that text: objective, constraints (label, lhs, sense, rhs) and variables in its order *)
+(* one label accepted by dump, used as a variable or as a constraint label in a small model:
+   did loads (dumps cqm) give the model back?  compared with the model of the reader's tokenizer
+   built from the generated keyword / delimiter tables (this includes the open label findings) *)
+| KReads (as_constraint : bool) (s : text) (came_back : bool)
 | KParse (n : nat) (toks : list token) (obj1 : obs) (cons1 : list (nat * conobs)) (vars1 : list varinfo).
 
 Definition to_constr (k : conobs) : constr := mkConstr (obs_poly (k_lhs k)) (k_sense k) (k_rhs k).
@@ -81,4 +85,7 @@ Definition check (c : case) : bool :=
       && forallb validate_label labels
   | KRefuse m raised => Bool.eqb (negb (dump_ok m)) raised
   | KParse n toks obj1 cons1 vars1 => parse_ok n toks obj1 cons1 vars1
+  | KReads as_con s came_back =>
+      validate_label (Some s)
+      && Bool.eqb (reader_reads_label (if as_con then AsConstraint else AsVariable) s) came_back
   end.
